@@ -141,6 +141,18 @@ def tlc_mc(module, cfg, wdir, workers=8, timeout=900, lib=None):
     if "Error:" in out and not viol and res["left"] == 0 and rc != 0:
         raise ToolError(f"TLC error on {module}/{cfg}:\n" + out[-3000:])
     res["violated"] = viol
+    # transition tour: behaviours printed by the model's Tour action constraint, one per signature
+    tour = {}
+    for m in re.finditer(r'^<<"REPLAY", "(.*)">>$', out, re.M):
+        try:
+            d = json.loads(m.group(1).encode().decode("unicode_escape"))
+        except Exception:
+            continue
+        if isinstance(d, dict) and "sig" in d and d["sig"] not in tour:
+            tour[d["sig"]] = d["calls"]
+    res["tour"] = [tour[k] for k in sorted(tour)]
+    # keep the log small: drop the REPLAY lines
+    res["out"] = re.sub(r'^<<"REPLAY".*$\n?', "", out, flags=re.M)
     return res
 
 
